@@ -30,7 +30,7 @@ def main():
         out.append('// ---- %s::%s (src/%s) ----' % (fname[:-3], fn, fname))
         out.append(item)
         out.append('')
-    dst = os.path.join(os.path.dirname(HERE), 'replay', 'src', 'extracted.rs')
+    dst = os.path.join(os.environ.get('VERIF_REPLAY_OUT', os.path.join(os.path.dirname(HERE), 'replay')), 'src', 'extracted.rs')
     open(dst, 'w').write('\n'.join(out))
     print('extracted %d functions into %s' % (len(WANT), dst))
 
